@@ -3,7 +3,6 @@ From AM Require Import Base.Prelude Model.Nflog Model.Wire.
 
 Local Open Scope N_scope.
 
-Definition two64N : N := 18446744073709551616.
 
 (* ================= varint ================= *)
 Fixpoint vbound (f : nat) : N :=
@@ -214,8 +213,8 @@ Proof.
   apply varint_dec_shrinks in Et.
   destruct ((tag / 8 <? 1) || (max_field_number <? tag / 8)); [exact I|].
   case_wt tag; split_branches; try exact I; try lia.
-  unfold skip_group. pose proof (skip_groups_le (length r0) [tag / 8] r0) as H.
-  destruct (skip_groups (length r0) [tag / 8] r0); try exact I. lia.
+  unfold skip_group. pose proof (skip_groups_le (S (length r0)) [tag / 8] r0) as H.
+  destruct (skip_groups (S (length r0)) [tag / 8] r0); try exact I. lia.
 Qed.
 
 Lemma parse_field_shrinks b x r : parse_field b = Some (x, r) -> (length r < length b)%nat.
@@ -227,18 +226,6 @@ Proof. apply many_fuel_enough; [exact parse_field_shrinks|lia]. Qed.
 
 Lemma packed_fuel_ok b : many varint_dec (length b) b <> PFuel.
 Proof. apply many_fuel_enough; [exact varint_dec_shrinks|lia]. Qed.
-
-Definition small (b : list N) : bool := N.of_nat (length b) <? two64N.
-
-Definition wf_field (f : N * wval) : bool :=
-  (1 <=? fst f) && (fst f <=? max_field_number) &&
-  match snd f with
-  | WVar v => v <? two64N
-  | WI64 b => Nat.eqb (length b) 8
-  | WI32 b => Nat.eqb (length b) 4
-  | WLen b => small b
-  | WGroup => false
-  end.
 
 Lemma tag_split num wt : wt < 8 -> (num * 8 + wt) / 8 = num /\ (num * 8 + wt) mod 8 = wt.
 Proof.
@@ -252,8 +239,8 @@ Proof.
   destruct f as [num v]. unfold wf_field. cbn [fst snd]. intros H.
   assert (Hnum : 1 <= num /\ num <= max_field_number) by lia.
   assert (Hr : (num <? 1) || (max_field_number <? num) = false) by lia.
-  unfold max_field_number in *.
   unfold parse_field, enc_field, tag_of.
+  unfold max_field_number in *.
   destruct v as [n|b|b|b|].
   - destruct (tag_split num 0 ltac:(lia)) as [Hd Hm].
     rewrite <- app_assoc, varint_roundtrip by (unfold two64N; lia).
@@ -343,18 +330,23 @@ Lemma read_frame_truncated body p q :
 Proof.
   intros Hsz H Hq Hp. unfold frame in H. unfold read_frame.
   (* p is a strict prefix of the varint, or the varint followed by a strict prefix of the body *)
-  destruct (decide (length p < length (varint_enc (N.of_nat (length body))))%nat) as [Hlt|Hge].
-  - assert (Hv : varint_enc (N.of_nat (length body)) = p ++ take (length (varint_enc (N.of_nat (length body))) - length p) q).
-    { apply (f_equal (take (length (varint_enc (N.of_nat (length body)))))) in H.
-      rewrite take_app_length in H. rewrite H. rewrite take_app_ge by lia. reflexivity. }
-    rewrite (varint_strict_prefix_fails _ _ _ Hv); [reflexivity|].
+  assert (Hdec : varint_dec (varint_enc (N.of_nat (length body)) ++ drop (length (varint_enc (N.of_nat (length body)))) p)
+                 = Some (N.of_nat (length body), drop (length (varint_enc (N.of_nat (length body)))) p)).
+  { unfold max_size in Hsz. apply varint_roundtrip. unfold two64N. lia. }
+  remember (varint_enc (N.of_nat (length body))) as v eqn:Ev.
+  destruct (decide (length p < length v)%nat) as [Hlt|Hge].
+  - assert (Hv : v = p ++ take (length v - length p) q).
+    { pose proof (f_equal (take (length v)) H) as H'. rewrite take_app in H'.
+      rewrite take_app_ge in H' by lia. exact H'. }
+    pose proof (varint_strict_prefix_fails (N.of_nat (length body)) p (take (length v - length p) q)) as F.
+    rewrite <- Ev in F. rewrite (F Hv); [reflexivity|].
     intros Hn. apply (f_equal length) in Hv. rewrite app_length, Hn in Hv. simpl in Hv. lia.
-  - assert (Hp' : p = varint_enc (N.of_nat (length body)) ++ drop (length (varint_enc (N.of_nat (length body)))) p).
-    { apply (f_equal (take (length (varint_enc (N.of_nat (length body)))))) in H.
-      rewrite take_app_length in H. rewrite take_app_le in H by lia.
-      rewrite <- (take_drop (length (varint_enc (N.of_nat (length body)))) p) at 1. rewrite <- H. reflexivity. }
-    rewrite Hp'. unfold max_size in *. rewrite varint_roundtrip by (unfold two64N; lia).
-    assert (E : 4194304 <? N.of_nat (length body) = false) by lia. unfold max_size. rewrite E.
+  - assert (Hp' : p = v ++ drop (length v) p).
+    { pose proof (f_equal (take (length v)) H) as H'. rewrite take_app in H'.
+      rewrite take_app_le in H' by lia.
+      rewrite <- (take_drop (length v) p) at 1. rewrite <- H'. reflexivity. }
+    rewrite Hp'. rewrite Hdec.
+    assert (E : max_size <? N.of_nat (length body) = false) by lia. rewrite E.
     apply split_exact_short.
     apply (f_equal length) in H. rewrite !app_length in H.
     rewrite drop_length.
@@ -411,14 +403,14 @@ Section FileProofs.
       + exists 0%nat, p, (take (length (frame (enc x)) - length p) s). split; [simpl; lia|]. split; [reflexivity|].
         exists x. split; [reflexivity|].
         assert (Hf : frame (enc x) = p ++ take (length (frame (enc x)) - length p) s).
-        { apply (f_equal (take (length (frame (enc x))))) in Hs. rewrite take_app_length in Hs.
-          rewrite Hs. rewrite take_app_ge by lia. reflexivity. }
+        { pose proof (f_equal (take (length (frame (enc x)))) Hs) as Hs2. rewrite take_app in Hs2.
+          rewrite take_app_ge in Hs2 by lia. exact Hs2. }
         split; [exact Hf|]. intros Hn. apply (f_equal length) in Hf. rewrite app_length, Hn in Hf. simpl in Hf. lia.
       + (* p = frame x ++ p' with p' a strict prefix of the rest *)
         assert (Hp : p = frame (enc x) ++ drop (length (frame (enc x))) p).
-        { apply (f_equal (take (length (frame (enc x))))) in Hs. rewrite take_app_length in Hs.
-          rewrite take_app_le in Hs by lia.
-          rewrite <- (take_drop (length (frame (enc x))) p) at 1. rewrite <- Hs. reflexivity. }
+        { pose proof (f_equal (take (length (frame (enc x)))) Hs) as Hs2. rewrite take_app in Hs2.
+          rewrite take_app_le in Hs2 by lia.
+          rewrite <- (take_drop (length (frame (enc x))) p) at 1. rewrite <- Hs2. reflexivity. }
         set (p' := drop (length (frame (enc x))) p) in *.
         assert (Hs' : encode_file enc st = p' ++ s).
         { rewrite Hp in Hs. rewrite <- app_assoc in Hs. apply app_inv_head in Hs. exact Hs. }
@@ -464,7 +456,9 @@ Section FileProofs.
             cbn [many]. destruct (read_frame (y :: b)) as [[x r]|] eqn:Er; [|reflexivity].
             apply read_frame_shrinks in Er. rewrite <- (IHf r) by (simpl in *; lia).
             reflexivity. }
-        rewrite Hsame. destruct (many read_frame f (z :: q')); try reflexivity. congruence.
+        rewrite <- Hsame. cbn [many].
+        destruct (read_frame (z :: q')) as [[x0 r]|]; [|reflexivity].
+        destruct (many read_frame f r); reflexivity.
   Qed.
 
   (* PREFIX BEHAVIOUR: a strict prefix of a written file is rejected, or it is exactly the file of the first j
@@ -491,3 +485,423 @@ Section FileProofs.
       cbn [many]. rewrite Hnone. eexists. reflexivity.
   Qed.
 End FileProofs.
+
+(* ================= scalars ================= *)
+Local Open Scope Z_scope.
+
+Lemma int64_roundtrip z : in64 z = true -> int64_of (u64_of_z z) = z.
+Proof.
+  unfold in64, int64_of, u64_of_z, two63, two64. intros H.
+  destruct (z <? 0) eqn:E.
+  - rewrite Z2N.id by lia. rewrite Z.mod_small by lia.
+    destruct (z + 18446744073709551616 <? 9223372036854775808) eqn:E2; lia.
+  - rewrite Z2N.id by lia. rewrite Z.mod_small by lia.
+    destruct (z <? 9223372036854775808) eqn:E2; lia.
+Qed.
+
+Lemma int32_roundtrip z : in32 z = true -> int32_of (u64_of_z z) = z.
+Proof.
+  unfold in32, int32_of, u64_of_z, two31, two32, two64. intros H.
+  destruct (z <? 0) eqn:E.
+  - rewrite Z2N.id by lia.
+    replace (z + 18446744073709551616) with (z + 4294967296 + 4294967295 * 4294967296) by lia.
+    rewrite Z.mod_add by lia. rewrite Z.mod_small by lia.
+    destruct (z + 4294967296 <? 2147483648) eqn:E2; lia.
+  - rewrite Z2N.id by lia. rewrite Z.mod_small by lia.
+    destruct (z <? 2147483648) eqn:E2; lia.
+Qed.
+
+Lemma le_val_bytes k n : (n < 256 ^ N.of_nat k)%N -> le_val (le_bytes k n) = n.
+Proof.
+  revert n. induction k as [|k IH]; intros n H.
+  - simpl in *. lia.
+  - cbn [le_bytes le_val]. rewrite IH.
+    + pose proof (N.div_mod n 256 ltac:(lia)). lia.
+    + rewrite Nat2N.inj_succ, N.pow_succ_r' in H. apply N.div_lt_upper_bound; lia.
+Qed.
+
+Lemma fits_app a b : fits (a ++ b) = fits a && fits b.
+Proof. unfold fits. apply forallb_app. Qed.
+
+Ltac bsplit := repeat match goal with H : _ && _ = true |- _ => apply andb_true_iff in H; destruct H end.
+
+(* ================= Timestamp ================= *)
+Lemma dec_ts_roundtrip t : wf_ts t = true -> dec_ts_into ts0 (enc_fields (fields_ts t)) = Some t.
+Proof.
+  unfold wf_ts. intros H. bsplit. unfold dec_ts_into. rewrite parse_msg_enc by assumption.
+  destruct t as [s n]. unfold fields_ts, f_int. cbn [t_sec t_nanos] in *.
+  destruct (s =? 0) eqn:Es; destruct (n =? 0) eqn:En; cbn [app foldM upd_ts t_sec t_nanos ts0];
+    rewrite ?int64_roundtrip, ?int32_roundtrip by assumption; f_equal; f_equal; lia.
+Qed.
+
+Lemma merge_ts_roundtrip o : wf_ots o = true ->
+  match o with Some t => merge_ts None (enc_fields (fields_ts t)) = Some (Some t) | None => True end.
+Proof.
+  destruct o as [t|]; [|trivial]. simpl. intros H. unfold merge_ts. simpl. rewrite dec_ts_roundtrip by exact H. reflexivity.
+Qed.
+
+(* ================= Receiver ================= *)
+Lemma dec_recv_roundtrip r : wf_recv r = true -> dec_recv_into recv0 (enc_fields (fields_recv r)) = Some r.
+Proof.
+  unfold wf_recv. intros H. bsplit. unfold dec_recv_into. rewrite parse_msg_enc by assumption.
+  destruct r as [g i x]. unfold fields_recv, f_str, f_var. cbn [r_group r_integ r_idx] in *.
+  assert (Hx : (x mod 4294967296 = x)%N) by (apply N.mod_small; lia).
+  destruct g as [|a g]; destruct i as [|b i]; destruct (x =? 0)%N eqn:Ex;
+    cbn [app foldM upd_recv r_group r_integ r_idx recv0];
+    rewrite ?dec_str_s2b by assumption; cbn [r_group r_integ r_idx]; rewrite ?dec_str_s2b by assumption;
+    rewrite ?Hx; try reflexivity; f_equal; f_equal; lia.
+Qed.
+
+(* ================= ReceiverDataValue ================= *)
+Lemma dec_rdv_roundtrip v : wf_rdv v = true -> dec_rdv_into None (enc_fields (fields_rdv v)) = Some v.
+Proof.
+  unfold wf_rdv. intros H. bsplit. unfold dec_rdv_into. rewrite parse_msg_enc by assumption.
+  destruct v as [[s|z|b]|]; cbn [fields_rdv foldM upd_rdv].
+  - rewrite dec_str_s2b by assumption. reflexivity.
+  - rewrite int64_roundtrip by assumption. reflexivity.
+  - rewrite le_val_bytes.
+    + rewrite Z2N.id by lia. reflexivity.
+    + unfold two64 in *. change (256 ^ N.of_nat 8)%N with 18446744073709551616%N. lia.
+  - reflexivity.
+Qed.
+
+Lemma dec_dentry_roundtrip kv : wf_dentry kv = true -> dec_dentry (enc_fields (fields_dentry kv)) = Some kv.
+Proof.
+  unfold wf_dentry. intros H. bsplit. unfold dec_dentry. rewrite parse_msg_enc by assumption.
+  destruct kv as [k v]. cbn [fields_dentry foldM upd_dentry fst snd] in *.
+  rewrite dec_str_s2b by assumption. cbn [fst snd]. rewrite dec_rdv_roundtrip by assumption. reflexivity.
+Qed.
+
+(* ================= association lists ================= *)
+Lemma alist_set_fresh {V} k (v : V) l :
+  existsb (fun kv => String.eqb (fst kv) k) l = false -> alist_set k v l = l ++ [(k, v)].
+Proof.
+  induction l as [|[k' v'] l IH]; intros H; [reflexivity|].
+  simpl in *. apply orb_false_iff in H. destruct H as [H1 H2]. rewrite H1. rewrite IH by exact H2. reflexivity.
+Qed.
+
+Lemma keys_unique_snoc_fresh {V} (acc : list (string * V)) k v l :
+  keys_unique (acc ++ (k, v) :: l) = true -> existsb (fun kv => String.eqb (fst kv) k) acc = false.
+Proof.
+  induction acc as [|[k' v'] acc IH]; intros H; [reflexivity|].
+  simpl in *. apply andb_true_iff in H. destruct H as [H1 H2].
+  rewrite IH by exact H2. rewrite orb_false_r.
+  apply negb_true_iff in H1. rewrite existsb_app in H1. apply orb_false_iff in H1. destruct H1 as [_ H1].
+  simpl in H1. apply orb_false_iff in H1. destruct H1 as [H1 _]. rewrite String.eqb_sym. exact H1.
+Qed.
+
+(* ================= Entry ================= *)
+Lemma entry_data_fold gk rc gh rs ts fi ra l : forall acc,
+  forallb wf_dentry l = true -> keys_unique (acc ++ l) = true ->
+  foldM upd_entry (f_rep 8 fields_dentry l) (mkWEntry gk rc gh rs ts fi ra acc)
+  = Some (mkWEntry gk rc gh rs ts fi ra (acc ++ l)).
+Proof.
+  induction l as [|[k v] l IH]; intros acc Hw Hu.
+  - simpl. rewrite app_nil_r. reflexivity.
+  - cbn [forallb] in Hw. apply andb_true_iff in Hw. destruct Hw as [Hw1 Hw2].
+    cbn [f_rep map foldM upd_entry]. rewrite dec_dentry_roundtrip by exact Hw1.
+    rewrite alist_set_fresh by (eapply keys_unique_snoc_fresh; exact Hu).
+    rewrite IH; [|exact Hw2|rewrite <- app_assoc; exact Hu].
+    rewrite <- app_assoc. reflexivity.
+Qed.
+
+Lemma dec_entry_roundtrip e : wf_entry e = true -> dec_entry_into entry0 (enc_fields (fields_entry e)) = Some e.
+Proof.
+  unfold wf_entry. intros H. bsplit. unfold dec_entry_into. rewrite parse_msg_enc by assumption.
+  destruct e as [gk rc gh rs ts fi ra da]. unfold fields_entry. cbn [we_gkey we_recv we_ghash we_resolved we_ts we_firing we_resalerts we_data] in *.
+  unfold entry0.
+  (* 1 group_key *)
+  assert (S1 : foldM upd_entry (f_str 1 gk) (mkWEntry "" None "" false None [] [] []) = Some (mkWEntry gk None "" false None [] [] [])).
+  { destruct gk; [reflexivity|]. cbn [f_str foldM upd_entry]. rewrite b2s_s2b. reflexivity. }
+  rewrite foldM_app, S1. cbv beta iota.
+  (* 2 receiver *)
+  assert (S2 : foldM upd_entry (f_msg 2 fields_recv rc) (mkWEntry gk None "" false None [] [] []) = Some (mkWEntry gk rc "" false None [] [] [])).
+  { destruct rc as [r|]; [|reflexivity]. cbn [f_msg foldM upd_entry default]. rewrite dec_recv_roundtrip by assumption. reflexivity. }
+  rewrite foldM_app, S2. cbv beta iota.
+  (* 3 group_hash *)
+  assert (S3 : foldM upd_entry (f_str 3 gh) (mkWEntry gk rc "" false None [] [] []) = Some (mkWEntry gk rc gh false None [] [] [])).
+  { destruct gh; [reflexivity|]. cbn [f_str foldM upd_entry]. rewrite b2s_s2b. reflexivity. }
+  rewrite foldM_app, S3. cbv beta iota.
+  (* 4 resolved *)
+  assert (S4 : foldM upd_entry (f_bool 4 rs) (mkWEntry gk rc gh false None [] [] []) = Some (mkWEntry gk rc gh rs None [] [] [])).
+  { destruct rs; reflexivity. }
+  rewrite foldM_app, S4. cbv beta iota.
+  (* 5 timestamp *)
+  assert (S5 : foldM upd_entry (f_msg 5 fields_ts ts) (mkWEntry gk rc gh rs None [] [] []) = Some (mkWEntry gk rc gh rs ts [] [] [])).
+  { destruct ts as [t|]; [|reflexivity]. cbn [f_msg foldM upd_entry]. unfold merge_ts. cbn [default].
+    rewrite dec_ts_roundtrip by assumption. reflexivity. }
+  rewrite foldM_app, S5. cbv beta iota.
+  (* 6, 7 packed hashes *)
+  assert (S6 : foldM upd_entry (f_packed 6 fi) (mkWEntry gk rc gh rs ts [] [] []) = Some (mkWEntry gk rc gh rs ts fi [] [])).
+  { destruct fi as [|x fi]; [reflexivity|]. cbn [f_packed foldM upd_entry]. rewrite dec_packed_enc by assumption. reflexivity. }
+  rewrite foldM_app, S6. cbv beta iota.
+  assert (S7 : foldM upd_entry (f_packed 7 ra) (mkWEntry gk rc gh rs ts fi [] []) = Some (mkWEntry gk rc gh rs ts fi ra [])).
+  { destruct ra as [|x ra]; [reflexivity|]. cbn [f_packed foldM upd_entry]. rewrite dec_packed_enc by assumption. reflexivity. }
+  rewrite foldM_app, S7. cbv beta iota.
+  (* 8 receiver_data *)
+  rewrite entry_data_fold by assumption. reflexivity.
+Qed.
+
+(* ================= MeshEntry ================= *)
+Lemma dec_mesh_roundtrip m : wf_mesh m = true -> dec_mesh (enc_mesh m) = Some m.
+Proof.
+  unfold wf_mesh. intros H. bsplit. unfold dec_mesh, enc_mesh. rewrite parse_msg_enc by assumption.
+  destruct m as [e x]. unfold fields_mesh. cbn [wm_entry wm_exp] in *.
+  assert (S1 : foldM upd_mesh (f_msg 1 fields_entry e) (mkMesh None None) = Some (mkMesh e None)).
+  { destruct e as [e|]; [|reflexivity]. cbn [f_msg foldM upd_mesh wm_entry wm_exp default].
+    rewrite dec_entry_roundtrip by assumption. reflexivity. }
+  rewrite foldM_app, S1. cbv beta iota.
+  destruct x as [t|]; [|reflexivity]. cbn [f_msg foldM upd_mesh wm_entry wm_exp]. unfold merge_ts. cbn [default].
+  rewrite dec_ts_roundtrip by assumption. reflexivity.
+Qed.
+
+Lemma wf_mesh_size m : wf_mesh m = true -> (N.of_nat (length (enc_mesh m)) <= max_size)%N.
+Proof. unfold wf_mesh, enc_mesh. intros H. bsplit. lia. Qed.
+
+(* ================= nflog files ================= *)
+Definition wf_nflog (st : list wmesh) : Prop := Forall (fun m => wf_mesh m = true) st.
+
+Theorem nflog_decode_encode st : wf_nflog st -> decode_nflog (encode_nflog st) = Ok st.
+Proof. apply decode_encode_file; [exact dec_mesh_roundtrip|exact wf_mesh_size]. Qed.
+
+Theorem nflog_decode_total b : decode_nflog b <> Panic.
+Proof. apply decode_file_total. Qed.
+
+Theorem nflog_prefix_behaviour st p :
+  wf_nflog st -> p `prefix_of` encode_nflog st -> p <> encode_nflog st ->
+  (exists c, decode_nflog p = Err c) \/
+  (exists j, (j < length st)%nat /\ p = encode_nflog (take j st) /\ decode_nflog p = Ok (take j st)).
+Proof. apply prefix_behaviour_file; [exact dec_mesh_roundtrip|exact wf_mesh_size]. Qed.
+
+(* ================= silencepb ================= *)
+Lemma dec_matcher_roundtrip m : wf_matcher m = true -> dec_matcher (enc_fields (fields_matcher m)) = Some m.
+Proof.
+  unfold wf_matcher. intros H. bsplit. unfold dec_matcher. rewrite parse_msg_enc by assumption.
+  destruct m as [t n p]. unfold fields_matcher, f_int, f_str. cbn [wm_type wm_name wm_pattern] in *.
+  destruct (t =? 0) eqn:Et; destruct n as [|a n]; destruct p as [|b p];
+    cbn [app foldM upd_matcher wm_type wm_name wm_pattern];
+    rewrite ?int32_roundtrip by assumption; rewrite ?dec_str_s2b by assumption;
+    cbn [wm_type wm_name wm_pattern]; rewrite ?dec_str_s2b by assumption; try reflexivity; f_equal; f_equal; lia.
+Qed.
+
+Lemma mset_fold l : forall acc, forallb wf_matcher l = true ->
+  foldM upd_mset (f_rep 1 fields_matcher l) acc = Some (acc ++ l).
+Proof.
+  induction l as [|m l IH]; intros acc Hw.
+  - simpl. rewrite app_nil_r. reflexivity.
+  - cbn [forallb] in Hw. apply andb_true_iff in Hw. destruct Hw as [Hw1 Hw2].
+    cbn [f_rep map foldM upd_mset]. rewrite dec_matcher_roundtrip by exact Hw1.
+    rewrite IH by exact Hw2. rewrite <- app_assoc. reflexivity.
+Qed.
+
+Lemma dec_mset_roundtrip ms : wf_mset ms = true -> dec_mset (enc_fields (fields_mset ms)) = Some ms.
+Proof.
+  unfold wf_mset. intros H. bsplit. unfold dec_mset. rewrite parse_msg_enc by assumption.
+  unfold fields_mset. rewrite mset_fold by assumption. reflexivity.
+Qed.
+
+Lemma dec_comment_roundtrip c : wf_comment c = true -> dec_comment (enc_fields (fields_comment c)) = Some c.
+Proof.
+  unfold wf_comment. intros H. bsplit. unfold dec_comment. rewrite parse_msg_enc by assumption.
+  destruct c as [a m t]. unfold fields_comment, f_str. cbn [wc_author wc_comment wc_ts] in *.
+  destruct a as [|x a]; destruct m as [|y m]; destruct t as [t|];
+    cbn [app f_msg foldM upd_comment wc_author wc_comment wc_ts];
+    rewrite ?dec_str_s2b by assumption; cbn [wc_author wc_comment wc_ts]; rewrite ?dec_str_s2b by assumption;
+    cbn [wc_author wc_comment wc_ts]; unfold merge_ts; cbn [default]; rewrite ?dec_ts_roundtrip by assumption; reflexivity.
+Qed.
+
+Lemma dec_aentry_roundtrip kv : wf_aentry kv = true -> dec_aentry (enc_fields (fields_aentry kv)) = Some kv.
+Proof.
+  unfold wf_aentry. intros H. bsplit. unfold dec_aentry. rewrite parse_msg_enc by assumption.
+  destruct kv as [k v]. cbn [fields_aentry foldM upd_aentry fst snd] in *.
+  rewrite dec_str_s2b by assumption. cbn [fst snd]. rewrite dec_str_s2b by assumption. reflexivity.
+Qed.
+
+Section SilenceFolds.
+  Variables (id : string) (st en up : option wts) (cb cm : string).
+
+  Lemma sil_matchers_fold l : forall acc cs an s1 s2, forallb wf_matcher l = true ->
+    foldM upd_silence (f_rep 2 fields_matcher l) (mkWS id acc st en up cs cb cm an s1 s2)
+    = Some (mkWS id (acc ++ l) st en up cs cb cm an s1 s2).
+  Proof.
+    induction l as [|m l IH]; intros acc cs an s1 s2 Hw.
+    - simpl. rewrite app_nil_r. reflexivity.
+    - cbn [forallb] in Hw. apply andb_true_iff in Hw. destruct Hw as [Hw1 Hw2].
+      cbn [f_rep map foldM upd_silence]. rewrite dec_matcher_roundtrip by exact Hw1.
+      rewrite IH by exact Hw2. rewrite <- app_assoc. reflexivity.
+  Qed.
+
+  Lemma sil_comments_fold l : forall ms acc an s1 s2, forallb wf_comment l = true ->
+    foldM upd_silence (f_rep 7 fields_comment l) (mkWS id ms st en up acc cb cm an s1 s2)
+    = Some (mkWS id ms st en up (acc ++ l) cb cm an s1 s2).
+  Proof.
+    induction l as [|m l IH]; intros ms acc an s1 s2 Hw.
+    - simpl. rewrite app_nil_r. reflexivity.
+    - cbn [forallb] in Hw. apply andb_true_iff in Hw. destruct Hw as [Hw1 Hw2].
+      cbn [f_rep map foldM upd_silence]. rewrite dec_comment_roundtrip by exact Hw1.
+      rewrite IH by exact Hw2. rewrite <- app_assoc. reflexivity.
+  Qed.
+
+  Lemma sil_ann_fold l : forall ms cs acc s1 s2, forallb wf_aentry l = true -> keys_unique (acc ++ l) = true ->
+    foldM upd_silence (f_rep 10 fields_aentry l) (mkWS id ms st en up cs cb cm acc s1 s2)
+    = Some (mkWS id ms st en up cs cb cm (acc ++ l) s1 s2).
+  Proof.
+    induction l as [|[k v] l IH]; intros ms cs acc s1 s2 Hw Hu.
+    - simpl. rewrite app_nil_r. reflexivity.
+    - cbn [forallb] in Hw. apply andb_true_iff in Hw. destruct Hw as [Hw1 Hw2].
+      cbn [f_rep map foldM upd_silence]. rewrite dec_aentry_roundtrip by exact Hw1.
+      rewrite alist_set_fresh by (eapply keys_unique_snoc_fresh; exact Hu).
+      rewrite IH; [|exact Hw2|rewrite <- app_assoc; exact Hu].
+      rewrite <- app_assoc. reflexivity.
+  Qed.
+
+  Lemma sil_msets_fold l : forall ms cs an acc s2, forallb wf_mset l = true ->
+    foldM upd_silence (f_rep 11 fields_mset l) (mkWS id ms st en up cs cb cm an acc s2)
+    = Some (mkWS id ms st en up cs cb cm an (acc ++ l) s2).
+  Proof.
+    induction l as [|m l IH]; intros ms cs an acc s2 Hw.
+    - simpl. rewrite app_nil_r. reflexivity.
+    - cbn [forallb] in Hw. apply andb_true_iff in Hw. destruct Hw as [Hw1 Hw2].
+      cbn [f_rep map foldM upd_silence]. rewrite dec_mset_roundtrip by exact Hw1.
+      rewrite IH by exact Hw2. rewrite <- app_assoc. reflexivity.
+  Qed.
+
+  Lemma sil_rmsets_fold l : forall ms cs an s1 acc, forallb wf_mset l = true ->
+    foldM upd_silence (f_rep 12 fields_mset l) (mkWS id ms st en up cs cb cm an s1 acc)
+    = Some (mkWS id ms st en up cs cb cm an s1 (acc ++ l)).
+  Proof.
+    induction l as [|m l IH]; intros ms cs an s1 acc Hw.
+    - simpl. rewrite app_nil_r. reflexivity.
+    - cbn [forallb] in Hw. apply andb_true_iff in Hw. destruct Hw as [Hw1 Hw2].
+      cbn [f_rep map foldM upd_silence]. rewrite dec_mset_roundtrip by exact Hw1.
+      rewrite IH by exact Hw2. rewrite <- app_assoc. reflexivity.
+  Qed.
+End SilenceFolds.
+
+Lemma dec_silence_roundtrip s : wf_silence s = true -> dec_silence_into sil0 (enc_fields (fields_silence s)) = Some s.
+Proof.
+  unfold wf_silence. intros H. bsplit. unfold dec_silence_into. rewrite parse_msg_enc by assumption.
+  destruct s as [id ms st en up cs cb cm an s1 s2]. unfold fields_silence.
+  cbn [ws_id ws_matchers ws_starts ws_ends ws_updated ws_comments ws_created_by ws_comment ws_annotations ws_msets ws_rmsets] in *.
+  unfold sil0.
+  assert (S1 : foldM upd_silence (f_str 1 id) (mkWS "" [] None None None [] "" "" [] [] []) = Some (mkWS id [] None None None [] "" "" [] [] [])).
+  { destruct id; [reflexivity|]. cbn [f_str foldM upd_silence]. rewrite dec_str_s2b by assumption. reflexivity. }
+  rewrite foldM_app, S1. cbv beta iota.
+  rewrite foldM_app, sil_matchers_fold by assumption. cbv beta iota. cbn [app].
+  assert (S3 : foldM upd_silence (f_msg 3 fields_ts st) (mkWS id ms None None None [] "" "" [] [] []) = Some (mkWS id ms st None None [] "" "" [] [] [])).
+  { destruct st as [t|]; [|reflexivity]. cbn [f_msg foldM upd_silence]. unfold merge_ts. cbn [default].
+    rewrite dec_ts_roundtrip by assumption. reflexivity. }
+  rewrite foldM_app, S3. cbv beta iota.
+  assert (S4 : foldM upd_silence (f_msg 4 fields_ts en) (mkWS id ms st None None [] "" "" [] [] []) = Some (mkWS id ms st en None [] "" "" [] [] [])).
+  { destruct en as [t|]; [|reflexivity]. cbn [f_msg foldM upd_silence]. unfold merge_ts. cbn [default].
+    rewrite dec_ts_roundtrip by assumption. reflexivity. }
+  rewrite foldM_app, S4. cbv beta iota.
+  assert (S5 : foldM upd_silence (f_msg 5 fields_ts up) (mkWS id ms st en None [] "" "" [] [] []) = Some (mkWS id ms st en up [] "" "" [] [] [])).
+  { destruct up as [t|]; [|reflexivity]. cbn [f_msg foldM upd_silence]. unfold merge_ts. cbn [default].
+    rewrite dec_ts_roundtrip by assumption. reflexivity. }
+  rewrite foldM_app, S5. cbv beta iota.
+  rewrite foldM_app, sil_comments_fold by assumption. cbv beta iota. cbn [app].
+  assert (S8 : foldM upd_silence (f_str 8 cb) (mkWS id ms st en up cs "" "" [] [] []) = Some (mkWS id ms st en up cs cb "" [] [] [])).
+  { destruct cb; [reflexivity|]. cbn [f_str foldM upd_silence]. rewrite dec_str_s2b by assumption. reflexivity. }
+  rewrite foldM_app, S8. cbv beta iota.
+  assert (S9 : foldM upd_silence (f_str 9 cm) (mkWS id ms st en up cs cb "" [] [] []) = Some (mkWS id ms st en up cs cb cm [] [] [])).
+  { destruct cm; [reflexivity|]. cbn [f_str foldM upd_silence]. rewrite dec_str_s2b by assumption. reflexivity. }
+  rewrite foldM_app, S9. cbv beta iota.
+  rewrite foldM_app, sil_ann_fold by assumption. cbv beta iota. cbn [app].
+  rewrite foldM_app, sil_msets_fold by assumption. cbv beta iota. cbn [app].
+  rewrite sil_rmsets_fold by assumption. reflexivity.
+Qed.
+
+Lemma dec_meshsil_roundtrip m : wf_meshsil m = true -> dec_meshsil (enc_meshsil m) = Some m.
+Proof.
+  unfold wf_meshsil. intros H. bsplit. unfold dec_meshsil, enc_meshsil. rewrite parse_msg_enc by assumption.
+  destruct m as [e x]. unfold fields_meshsil. cbn [ms_sil ms_exp] in *.
+  assert (S1 : foldM upd_meshsil (f_msg 1 fields_silence e) (mkMS None None) = Some (mkMS e None)).
+  { destruct e as [e|]; [|reflexivity]. cbn [f_msg foldM upd_meshsil ms_sil ms_exp default].
+    rewrite dec_silence_roundtrip by assumption. reflexivity. }
+  rewrite foldM_app, S1. cbv beta iota.
+  destruct x as [t|]; [|reflexivity]. cbn [f_msg foldM upd_meshsil ms_sil ms_exp]. unfold merge_ts. cbn [default].
+  rewrite dec_ts_roundtrip by assumption. reflexivity.
+Qed.
+
+Lemma wf_meshsil_size m : wf_meshsil m = true -> (N.of_nat (length (enc_meshsil m)) <= max_size)%N.
+Proof. unfold wf_meshsil, enc_meshsil. intros H. bsplit. lia. Qed.
+
+Definition wf_silences (st : list wmeshsil) : Prop := Forall (fun m => wf_meshsil m = true) st.
+
+Theorem silences_decode_encode st : wf_silences st -> decode_silences (encode_silences st) = Ok st.
+Proof. apply decode_encode_file; [exact dec_meshsil_roundtrip|exact wf_meshsil_size]. Qed.
+
+Theorem silences_decode_total b : decode_silences b <> Panic.
+Proof. apply decode_file_total. Qed.
+
+Theorem silences_prefix_behaviour st p :
+  wf_silences st -> p `prefix_of` encode_silences st -> p <> encode_silences st ->
+  (exists c, decode_silences p = Err c) \/
+  (exists j, (j < length st)%nat /\ p = encode_silences (take j st) /\ decode_silences p = Ok (take j st)).
+Proof. apply prefix_behaviour_file; [exact dec_meshsil_roundtrip|exact wf_meshsil_size]. Qed.
+
+(* ================= records over protodelim's 4 MiB default limit ================= *)
+(* The loader refuses any record whose encoding exceeds max_size, although Snapshot writes it. *)
+Lemma oversize_frame_refused {A} (dec : list N -> option A) body rest :
+  (max_size < N.of_nat (length body))%N -> (N.of_nat (length body) < two64N)%N ->
+  decode_file dec (frame body ++ rest) = Err "framing".
+Proof.
+  intros Hbig Hsmall. unfold decode_file.
+  destruct (frame body ++ rest) as [|y l] eqn:E.
+  { exfalso. apply app_eq_nil in E. destruct E as [E _]. exact (frame_nonempty _ E). }
+  cbn [length many]. rewrite <- E. unfold read_frame, frame. rewrite <- app_assoc.
+  rewrite varint_roundtrip by exact Hsmall.
+  assert (Hb : (max_size <? N.of_nat (length body))%N = true) by lia. rewrite Hb. reflexivity.
+Qed.
+
+Fixpoint rep_string (n : nat) : string := match n with O => EmptyString | S k => String (Ascii.ascii_of_N 120) (rep_string k) end.
+Lemma rep_string_length n : length (s2b (rep_string n)) = n.
+Proof. induction n as [|n IH]; [reflexivity|]. cbn [rep_string s2b length]. rewrite IH. reflexivity. Qed.
+
+(* a notification-log record whose group key alone is longer than the limit *)
+Definition big_mesh (n : nat) : wmesh := mkMesh (Some (mkWEntry (rep_string (S n)) None "" false None [] [] [])) None.
+Lemma enc_fields_len_head num b fs : (length b <= length (enc_fields ((num, WLen b) :: fs)))%nat.
+Proof. unfold enc_fields. cbn [map concat enc_field]. rewrite !app_length. lia. Qed.
+
+Lemma big_mesh_length n : (S n <= length (enc_mesh (big_mesh n)))%nat.
+Proof.
+  unfold enc_mesh, big_mesh.
+  set (e := mkWEntry (rep_string (S n)) None "" false None [] [] []).
+  assert (E1 : fields_mesh (mkMesh (Some e) None) = [(1%N, WLen (enc_fields (fields_entry e)))]) by reflexivity.
+  assert (E2 : exists rest, fields_entry e = (1%N, WLen (s2b (rep_string (S n)))) :: rest) by (eexists; reflexivity).
+  destruct E2 as [rest E2]. rewrite E1.
+  pose proof (enc_fields_len_head 1 (enc_fields (fields_entry e)) []) as L1.
+  pose proof (enc_fields_len_head 1 (s2b (rep_string (S n))) rest) as L2.
+  rewrite <- E2 in L2. rewrite rep_string_length in L2. lia.
+Qed.
+
+Lemma varint_enc_fuel_len f n : (length (varint_enc_fuel f n) <= f)%nat.
+Proof.
+  revert n. induction f as [|f IH]; intros n; [simpl; lia|].
+  simpl. destruct (n <? 128)%N; simpl; [lia|]. specialize (IH (n / 128)%N). lia.
+Qed.
+
+Lemma big_mesh_length_upper n : (length (enc_mesh (big_mesh n)) <= S n + 40)%nat.
+Proof.
+  unfold enc_mesh, big_mesh.
+  set (e := mkWEntry (rep_string (S n)) None "" false None [] [] []).
+  assert (E1 : fields_mesh (mkMesh (Some e) None) = [(1%N, WLen (enc_fields (fields_entry e)))]) by reflexivity.
+  assert (E2 : fields_entry e = [(1%N, WLen (s2b (rep_string (S n))))]) by reflexivity.
+  rewrite E1, E2. unfold enc_fields. cbn [map concat enc_field]. unfold tag_of, varint_enc.
+  rewrite !app_length. cbn [length]. rewrite ?app_length. rewrite rep_string_length.
+  repeat match goal with |- context [length (varint_enc_fuel 10 ?x)] =>
+    let H := fresh in pose proof (varint_enc_fuel_len 10 x) as H; generalize dependent (length (varint_enc_fuel 10 x)); intros end.
+  lia.
+Qed.
+
+(* REFUTED at full generality: a record Snapshot can write (here: a log entry whose group key is 4 MiB + 1 byte
+   long) yields a file that the loader refuses ("framing" = protodelim's SizeTooLargeError). *)
+Lemma oversize_snapshot_refused :
+  exists m : wmesh, decode_nflog (encode_nflog [m]) = Err "framing".
+Proof.
+  exists (big_mesh (N.to_nat max_size)). unfold encode_nflog, decode_nflog, encode_file. cbn [map concat].
+  apply oversize_frame_refused.
+  - pose proof (big_mesh_length (N.to_nat max_size)). unfold max_size in *. lia.
+  - pose proof (big_mesh_length_upper (N.to_nat max_size)). unfold max_size, two64N in *. lia.
+Qed.
